@@ -5,11 +5,20 @@
 #  include <yaclib/fault/inject.hpp>
 
 #  include <atomic>
+#  ifdef YACLIB_VERIF
+#    include <yaclib/fault/detail/verif.hpp>
+#  endif
 
 namespace yaclib_std {
 
+#  ifdef YACLIB_VERIF
+inline void atomic_thread_fence(std::memory_order order) noexcept {
+  yaclib::verif::Event(yaclib::verif::kFence, nullptr, static_cast<int>(order), 0, 0);
+}
+#  else
 inline void atomic_thread_fence(std::memory_order /*order*/) noexcept {
 }
+#  endif
 
 inline void atomic_signal_fence(std::memory_order /*order*/) noexcept {
 }
